@@ -1363,7 +1363,7 @@ static void case_neuro(vf_rng *r, int exact)
     lim_t lim;
     gen_t g;
     a_pid_neuro *c, *twin = NULL;
-    int mode = vf_chance(r, 1, 4) ? M_RUN : M_INC, reported_acc = 0;
+    int mode = vf_chance(r, 1, 4) ? M_RUN : M_INC, reported_acc = 0, zero_w = 0;
     unsigned const psw = vf_chance(r, 1, 3) ? 0 : (unsigned)vf_range(r, 2, 100);
     unsigned k, since_zero = 0, i, nclamp = 0;
     double last = 0;
@@ -1379,7 +1379,17 @@ static void case_neuro(vf_rng *r, int exact)
         for (i = 0; i < 3; ++i) { n.eta[i] = vf_chance(r, 1, 6) ? 0.0 : (vf_chance(r, 1, 5) ? -1.0 : 1.0) * vf_logu(r, -8, 1); }
         do { for (i = 0; i < 3; ++i) { n.w[i] = vf_chance(r, 1, 4) ? 0.0 : vf_sign(r) * vf_logu(r, -3, 2); } } while (n.w[0] == 0 && n.w[1] == 0 && n.w[2] == 0);
     }
+    /* all three weights exactly zero is a legal configuration too (the documented quotient is then 0/0; whatever the controller does, its
+       output must stay inside the limits and its state finite) - combined, half of the time, with output limits that exclude 0 */
+    zero_w = vf_chance(r, 1, 6);
+    if (zero_w) { n.w[0] = n.w[1] = n.w[2] = 0.0; VF_COUNT("neuro-all-weights-zero-histories"); }
     gen_limits(r, ls, exact, R * fabs(n.k), &lim);
+    if (zero_w && vf_chance(r, 1, 2))
+    {
+        double const lo = (double)vf_range(r, 1, 9), hi = lo + (double)vf_range(r, 0, 9);
+        if (vf_chance(r, 1, 2)) { lim.outmin = lo; lim.outmax = hi; }
+        else { lim.outmin = -hi; lim.outmax = -lo; }
+    }
     /* no +-DBL_MAX "unlimited" output here: when all three weights are 0 the documented quotient is 0/0 and the controller parks the output
        at outmin; with outmin = -DBL_MAX the next weight update eta*e*u*x overflows, which the quantifier excludes */
     if (lim.outmax > 0x1p30) { lim.outmax = exact ? 0x1p30 : 1e6; }
